@@ -390,3 +390,47 @@ func RepoDir() string {
 	}
 	return "/repo"
 }
+
+// FieldStringSlice returns the elements of the first `name: []string{…}` key-value pair of a
+// composite literal in the file (a struct field initialised with a list of string literals).
+func (s *File) FieldStringSlice(name string) ([]string, error) {
+	var out []string
+	var err error
+	found := false
+	ast.Inspect(s.f, func(n ast.Node) bool {
+		kv, ok := n.(*ast.KeyValueExpr)
+		if !ok || found {
+			return !found
+		}
+		id, ok := kv.Key.(*ast.Ident)
+		if !ok || id.Name != name {
+			return true
+		}
+		cl, ok := kv.Value.(*ast.CompositeLit)
+		if !ok || s.text(cl.Type) != "[]string" {
+			return true
+		}
+		found = true
+		for _, el := range cl.Elts {
+			bl, ok := el.(*ast.BasicLit)
+			if !ok || bl.Kind != token.STRING {
+				err = fmt.Errorf("%s: field %s has an element that is not a string literal: %s", s.Path, name, s.text(el))
+				return false
+			}
+			v, uerr := strconv.Unquote(bl.Value)
+			if uerr != nil {
+				err = uerr
+				return false
+			}
+			out = append(out, v)
+		}
+		return false
+	})
+	if err != nil {
+		return nil, err
+	}
+	if !found {
+		return nil, fmt.Errorf("%s: no `%s: []string{…}` initialiser", s.Path, name)
+	}
+	return out, nil
+}
